@@ -134,6 +134,13 @@ structure XInv (cfg : Config) (height : Int) (ctxs : Map CtxId Ctx) (expQ newQ :
         svc = x.svc ∧ p = q.prov ∧ e = q.expH)
   respReq : ∀ r, (Map.get resps r).isSome → (Map.get reqs r).isSome ∧ r ∉ activeI
   activeNodup : activeI.Nodup
+  /-- C12: a batch is marked running only while its expiry is pending -/
+  bRunExp : ∀ c x, Map.get ctxs c = some x → x.bstate = .running → (Map.get expH c).isSome
+  /-- pending requests belong to a batch that is still running -/
+  activeRunning : ∀ r, r ∈ activeI → ∃ x, Map.get ctxs r.ctx = some x ∧ x.bstate = .running
+  /-- C12: pending + answered = issued, for the batch in flight -/
+  counts : ∀ c x, Map.get ctxs c = some x → x.bstate = .running →
+      (activeI.filter (fun r => r.ctx = c)).length + x.respN = x.reqN
 
 abbrev InvX (s : State) : Prop :=
   XInv s.cfg s.height s.ctxs s.expQ s.newQ s.expH s.newH s.usedIds s.reqs s.activeB s.activeI s.resps
